@@ -1502,6 +1502,8 @@ def _r2_walk(qn: str, body: T.List[ast.stmt], p: paths.Path, pm: T.Dict[ast.AST,
                     if args == ['OLD', 'NEW']:
                         out.acts.append(('wire NEW: repoint-children', st))
                         continue
+                    if args == ['OLD', 'OLD']:
+                        continue        # children are left on the replaced object: no re-pointing happened
                     raise Undecided(f'{qn}: re-pointing loop not understood: {args}')
                 if cn.startswith('self.') and cn[5:] in _R2_WIRING and 'NEW' in args:
                     out.acts.append(('wire NEW: ' + ','.join(sorted(_R2_WIRING[cn[5:]])), st))
@@ -1535,6 +1537,16 @@ def _repoint_loops(block: T.List[ast.stmt]) -> None:
                 continue
             a, v = tables.canon(iff.test, True)
             asg = iff.body[0]
+            if isinstance(asg, ast.If) and len(asg.body) == 1 and isinstance(asg.body[0], ast.Assign) and len(asg.body[0].targets) == 1 \
+                    and norm(asg.body[0].targets[0]) == f'{x}.parent':
+                # class-tested form: re-link only a child of the same class as the new object, otherwise detach it
+                # (`x.parent = None; x.yielding = False`, the rule _link_to_parent applies to a parent of another type)
+                new_e = norm(asg.body[0].value)
+                ta, tv = tables.canon(asg.test, True)
+                same = ta.kind == 'is' and tv and set(ta.args) == {f'type({x})', f'type({new_e})'}
+                detach = sorted(norm(d) for d in asg.orelse)
+                if same and detach == sorted([f'{x}.parent = None', f'{x}.yielding = False']):
+                    asg = asg.body[0]
             if a.kind == 'is' and v and f'{x}.parent' in a.args and isinstance(asg, ast.Assign) and len(asg.targets) == 1 and norm(asg.targets[0]) == f'{x}.parent':
                 other = [t for t in a.args if t != f'{x}.parent']
                 if len(other) == 1:
